@@ -36,6 +36,13 @@ pub struct PaceCase {
     /// asks again must still pace the in-progress report it finally returns
     #[serde(default)]
     pub garbled_first: bool,
+    /// the bus is used from a destructor while the calling thread unwinds from an unrelated panic (an application
+    /// object that sends a last chunk / asks a last time in its Drop): the pauses are the sign's, they hold there too
+    #[serde(default)]
+    pub while_unwinding: bool,
+    /// an exchange that FAILED (a state query whose reply never comes) precedes the measured one on the same bus
+    #[serde(default)]
+    pub after_failed_exchange: bool,
 }
 
 struct Trial {
@@ -45,10 +52,27 @@ struct Trial {
     after_read: Option<Duration>,
     /// last write call of the message -> first write call of the follow-up message
     to_next_write: Duration,
+    /// call of process_message -> its first write call (nothing is due before a message goes out)
+    before_write: Duration,
 }
 
 fn one_trial(c: &PaceCase) -> Result<Trial, String> {
+    if c.while_unwinding {
+        let c2 = PaceCase { while_unwinding: false, ..c.clone() };
+        return match crate::engine::while_unwinding(move || one_trial_inner(&c2)) {
+            Ok(r) => r,
+            Err(p) => Err(format!("the bus panicked when used while the thread was unwinding: {p}")),
+        };
+    }
+    one_trial_inner(c)
+}
+
+fn one_trial_inner(c: &PaceCase) -> Result<Trial, String> {
     let mut tape = vec![];
+    if c.after_failed_exchange {
+        // a damaged line: the first exchange (a state query) fails on it
+        tape.extend_from_slice(b":01000304FF\r\n");
+    }
     if reply_expected(&c.msg) {
         if let Some(r) = &c.reply {
             if c.garbled_first {
@@ -81,6 +105,17 @@ fn one_trial(c: &PaceCase) -> Result<Trial, String> {
     // the calling thread may carry a pending wake-up token from earlier (thread::park/unpark users do);
     // pacing must not depend on it
     std::thread::current().unpark();
+    let (skip_w, skip_r) = if c.after_failed_exchange {
+        match catch(|| bus.process_message(M::Query(1).to_message()).map(|_| ()).map_err(|e| e.to_string())).map_err(|p| format!("panic: {p}"))? {
+            Err(_) => {}
+            Ok(()) => return Err("harness: the exchange that was meant to fail succeeded".into()),
+        }
+        let s = h.borrow();
+        (s.write_calls.len(), s.read_calls.len())
+    } else {
+        (0, 0)
+    };
+    let called = Instant::now();
     let r1 = catch(|| bus.process_message(c.msg.to_message()).map_err(|e| e.to_string()).map(|r| r.map(|m| M::from_message(&m)))).map_err(|p| format!("panic: {p}"))?;
     let returned = Instant::now();
     if c.garbled_first {
@@ -90,9 +125,9 @@ fn one_trial(c: &PaceCase) -> Result<Trial, String> {
         return match r1 {
             Ok(Some(M::Report(_, 8))) | Ok(Some(M::Report(_, 10))) => {
                 let last_read_end = s.read_calls.last().map(|r| r.at).unwrap_or(returned);
-                Ok(Trial { after_write: Duration::ZERO, after_read: Some(returned.saturating_duration_since(last_read_end)), to_next_write: Duration::from_secs(3600) })
+                Ok(Trial { after_write: Duration::ZERO, after_read: Some(returned.saturating_duration_since(last_read_end)), to_next_write: Duration::from_secs(3600), before_write: Duration::ZERO })
             }
-            _ => Ok(Trial { after_write: Duration::ZERO, after_read: Some(Duration::from_secs(3600)), to_next_write: Duration::from_secs(3600) }),
+            _ => Ok(Trial { after_write: Duration::ZERO, after_read: Some(Duration::from_secs(3600)), to_next_write: Duration::from_secs(3600), before_write: Duration::ZERO }),
         };
     }
     r1.map_err(|e| format!("process_message({}) failed on a cooperative port: {e}", c.msg.short()))?;
@@ -103,19 +138,20 @@ fn one_trial(c: &PaceCase) -> Result<Trial, String> {
     let r2 = catch(|| bus.process_message(M::Query(1).to_message()).map(|_| ()).map_err(|e| e.to_string())).map_err(|p| format!("panic: {p}"))?;
     r2.map_err(|e| format!("follow-up query failed: {e}"))?;
     let s = h.borrow();
-    if n_w1 == 0 || s.write_calls.len() <= n_w1 {
+    if n_w1 <= skip_w || s.write_calls.len() <= n_w1 {
         return Err("the port saw no write for one of the two messages".into());
     }
+    let before_write = s.write_calls[skip_w].started.saturating_duration_since(called);
     let last_write_end = s.write_calls[n_w1 - 1].at;
     let next_write_start = s.write_calls[n_w1].started;
-    let (after_write, after_read) = if n_r1 > 0 {
-        let first_read_start = s.read_calls[0].started;
+    let (after_write, after_read) = if n_r1 > skip_r {
+        let first_read_start = s.read_calls[skip_r].started;
         let last_read_end = s.read_calls[n_r1 - 1].at;
         (first_read_start.saturating_duration_since(last_write_end), Some(returned.saturating_duration_since(last_read_end)))
     } else {
         (next_write_start.saturating_duration_since(last_write_end), None)
     };
-    Ok(Trial { after_write, after_read, to_next_write: next_write_start.saturating_duration_since(last_write_end) })
+    Ok(Trial { after_write, after_read, to_next_write: next_write_start.saturating_duration_since(last_write_end), before_write })
 }
 
 const SEND_PACE: Duration = Duration::from_millis(30);
@@ -126,6 +162,7 @@ pub fn check_pace(c: &PaceCase, st: &mut Stats, max_trials: usize) -> Result<(),
     let in_progress = reply_expected(&c.msg) && matches!(c.reply, Some(M::Report(_, 8)) | Some(M::Report(_, 10)));
     let mut min_after_write = Duration::from_secs(3600);
     let mut min_after_read = Duration::from_secs(3600);
+    let mut min_before_write = Duration::from_secs(3600);
     let mut trials = 0;
     loop {
         let t = one_trial(c)?;
@@ -150,10 +187,11 @@ pub fn check_pace(c: &PaceCase, st: &mut Stats, max_trials: usize) -> Result<(),
             }
         }
         min_after_write = min_after_write.min(t.after_write);
+        min_before_write = min_before_write.min(t.before_write);
         if let Some(d) = t.after_read {
             min_after_read = min_after_read.min(d);
         }
-        let write_ok = is_chunk || min_after_write < SEND_PACE;
+        let write_ok = (is_chunk || min_after_write < SEND_PACE) && min_before_write < SEND_PACE;
         let read_ok = in_progress || t.after_read.is_none() || min_after_read < SEND_PACE;
         if trials >= 5 && write_ok && read_ok {
             break;
@@ -162,6 +200,14 @@ pub fn check_pace(c: &PaceCase, st: &mut Stats, max_trials: usize) -> Result<(),
             break;
         }
         if trials >= max_trials {
+            if min_before_write >= SEND_PACE {
+                return Err(format!(
+                    "{} is held back: in {trials} trials the bus never started writing it in under 30 ms after the call (minimum {:?}){}",
+                    c.msg.short(),
+                    min_before_write,
+                    if c.after_failed_exchange { " - the exchange before it on the same bus had failed" } else { "" }
+                ));
+            }
             if !write_ok {
                 return Err(format!(
                     "{} is delayed: in {trials} trials the bus never went on in under 30 ms after writing it (minimum {:?}) although it is not a data chunk",
@@ -318,31 +364,39 @@ pub fn all_pairs(addr: u16) -> Vec<PaceCase> {
     for m in msgs {
         if reply_expected(&m) {
             for r in &replies {
-                out.push(PaceCase { msg: m.clone(), reply: Some(r.clone()), write_block_ms: 0, read_block_ms: 0, pinned_baud: 0, garbled_first: false });
+                out.push(PaceCase { msg: m.clone(), reply: Some(r.clone()), write_block_ms: 0, read_block_ms: 0, pinned_baud: 0, garbled_first: false, while_unwinding: false, after_failed_exchange: false });
             }
         } else {
-            out.push(PaceCase { msg: m, reply: None, write_block_ms: 0, read_block_ms: 0, pinned_baud: 0, garbled_first: false });
+            out.push(PaceCase { msg: m, reply: None, write_block_ms: 0, read_block_ms: 0, pinned_baud: 0, garbled_first: false, while_unwinding: false, after_failed_exchange: false });
         }
     }
     // the paced exchanges again on a slow line: the 30 ms / 100 ms count from the END of the write / read,
     // however long the port needed for it
     for block in [4u64, 12, 25, 40] {
-        out.push(PaceCase { msg: M::Data { off: 0, data: vec![0xAA; 16] }, reply: None, write_block_ms: block, read_block_ms: 0, pinned_baud: 0, garbled_first: false });
-        out.push(PaceCase { msg: M::Data { off: 16, data: vec![] }, reply: None, write_block_ms: block, read_block_ms: 0, pinned_baud: 0, garbled_first: false });
+        out.push(PaceCase { msg: M::Data { off: 0, data: vec![0xAA; 16] }, reply: None, write_block_ms: block, read_block_ms: 0, pinned_baud: 0, garbled_first: false, while_unwinding: false, after_failed_exchange: false });
+        out.push(PaceCase { msg: M::Data { off: 16, data: vec![] }, reply: None, write_block_ms: block, read_block_ms: 0, pinned_baud: 0, garbled_first: false, while_unwinding: false, after_failed_exchange: false });
     }
     for block in [1u64, 3, 8] {
-        out.push(PaceCase { msg: M::Query(addr), reply: Some(M::Report(addr, 8)), write_block_ms: 0, read_block_ms: block, pinned_baud: 0, garbled_first: false });
-        out.push(PaceCase { msg: M::Req(addr, 2), reply: Some(M::Report(addr, 10)), write_block_ms: block, read_block_ms: block, pinned_baud: 0, garbled_first: false });
+        out.push(PaceCase { msg: M::Query(addr), reply: Some(M::Report(addr, 8)), write_block_ms: 0, read_block_ms: block, pinned_baud: 0, garbled_first: false, while_unwinding: false, after_failed_exchange: false });
+        out.push(PaceCase { msg: M::Req(addr, 2), reply: Some(M::Report(addr, 10)), write_block_ms: block, read_block_ms: block, pinned_baud: 0, garbled_first: false, while_unwinding: false, after_failed_exchange: false });
     }
     // fixed-rate adapters: the port keeps reporting another speed after it was configured; the pauses stay 30 / 100 ms
     for baud in [300u32, 9_600, 115_200, 4_000_000] {
-        out.push(PaceCase { msg: M::Data { off: 0, data: vec![0xAA; 16] }, reply: None, write_block_ms: 0, read_block_ms: 0, pinned_baud: baud, garbled_first: false });
-        out.push(PaceCase { msg: M::Query(addr), reply: Some(M::Report(addr, 10)), write_block_ms: 0, read_block_ms: 0, pinned_baud: baud, garbled_first: false });
+        out.push(PaceCase { msg: M::Data { off: 0, data: vec![0xAA; 16] }, reply: None, write_block_ms: 0, read_block_ms: 0, pinned_baud: baud, garbled_first: false, while_unwinding: false, after_failed_exchange: false });
+        out.push(PaceCase { msg: M::Query(addr), reply: Some(M::Report(addr, 10)), write_block_ms: 0, read_block_ms: 0, pinned_baud: baud, garbled_first: false, while_unwinding: false, after_failed_exchange: false });
+    }
+    // used while the thread unwinds from an unrelated panic: both pauses still apply
+    out.push(PaceCase { msg: M::Data { off: 0, data: vec![0xAA; 16] }, reply: None, write_block_ms: 0, read_block_ms: 0, pinned_baud: 0, garbled_first: false, while_unwinding: true, after_failed_exchange: false });
+    out.push(PaceCase { msg: M::Query(addr), reply: Some(M::Report(addr, 10)), write_block_ms: 0, read_block_ms: 0, pinned_baud: 0, garbled_first: false, while_unwinding: true, after_failed_exchange: false });
+    out.push(PaceCase { msg: M::Req(addr, 3), reply: Some(M::Report(addr, 8)), write_block_ms: 0, read_block_ms: 0, pinned_baud: 0, garbled_first: false, while_unwinding: true, after_failed_exchange: false });
+    // after an exchange that failed on the same bus: nothing is held back, the pauses stay what they are
+    for (m, r) in [(M::Count(2), None), (M::PixelsComplete(addr), None), (M::Goodbye(addr), None), (M::Query(addr), Some(M::Report(addr, 7))), (M::Data { off: 0, data: vec![1; 16] }, None), (M::Query(addr), Some(M::Report(addr, 10)))] {
+        out.push(PaceCase { msg: m, reply: r, write_block_ms: 0, read_block_ms: 0, pinned_baud: 0, garbled_first: false, while_unwinding: false, after_failed_exchange: true });
     }
     // a damaged reply line followed by an in-progress report
     for state in [8u8, 10] {
-        out.push(PaceCase { msg: M::Query(addr), reply: Some(M::Report(addr, state)), write_block_ms: 0, read_block_ms: 0, pinned_baud: 0, garbled_first: true });
-        out.push(PaceCase { msg: M::Hello(addr), reply: Some(M::Report(addr, state)), write_block_ms: 0, read_block_ms: 0, pinned_baud: 0, garbled_first: true });
+        out.push(PaceCase { msg: M::Query(addr), reply: Some(M::Report(addr, state)), write_block_ms: 0, read_block_ms: 0, pinned_baud: 0, garbled_first: true, while_unwinding: false, after_failed_exchange: false });
+        out.push(PaceCase { msg: M::Hello(addr), reply: Some(M::Report(addr, state)), write_block_ms: 0, read_block_ms: 0, pinned_baud: 0, garbled_first: true, while_unwinding: false, after_failed_exchange: false });
     }
     out
 }
